@@ -32,7 +32,10 @@ def answer (s : Store) (ws : List String) : Store × String :=
   | ["get", a, b] =>
     let es := get s (n a) (n b)
     (s, s!"ents n={es.length}" ++ String.join (es.map fun e => " " ++ showEnt e))
-  | ["last"] => (s, s!"last {(last s).1} {(last s).2}")
+  | ["last"] =>
+    -- the term reported for a log without entries is the pre-term of whichever file is open: not a statement of the
+    -- list specification (C03: "the reported term is that of the last remaining entry")
+    (s, if s.ents.isEmpty then s!"last {(last s).1} *" else s!"last {(last s).1} {(last s).2}")
   | ["compact", i, t] => (compact s (n i) (n t), "ok")
   | ["files"] => (s, "files *")
   | ["cat"] => (s, "cat *")
@@ -141,7 +144,7 @@ def specStep (st : SpecSt) (ws : List String) : SpecSt × String :=
     | "open" :: _ => (st3, if ans == ["ok"] then (mv.getD "spec ok") else "spec FAIL the store does not open")
     | ["reopen"] => (st3, if ans == ["ok"] then (mv.getD "spec ok") else "spec FAIL the store does not reopen")
     | _ =>
-      if " ".intercalate ans == r.2 then (st3, mv.getD "spec ok")
+      if " ".intercalate ans == r.2 || (r.2.endsWith " *" && ans.take 2 == (r.2.splitOn " ").take 2) then (st3, mv.getD "spec ok")
       else (st3, s!"spec FAIL answer differs from the log of acknowledged entries: want [{r.2}]")
   | _ => ({ st with pending := ws }, "")
 
